@@ -11,26 +11,28 @@
     theorems are named _partial while they are carried as hypotheses. *)
 From Coq Require Import List.
 From JL Require Import Base.Json Base.Dec2Flt Base.Monad Model.Eval Spec.Specs Spec.RefEval.
-From JL Require Import Proofs.MonadLaws Proofs.OpsCorrect Proofs.Totality.
+From JL Require Import Proofs.MonadLaws Proofs.OpsCorrect Proofs.Totality Proofs.Scan.
 From Coq Require Import String NArith ZArith.
 Local Open Scope string_scope.
 Import ListNotations.
 
+(** the one lemma still carried as a hypothesis: the parseFloat scanner returns the value of the
+    LONGEST prefix that is a StrDecimalLiteral (the Number()-style scanner lemma is proved:
+    Proofs/Scan.v str_to_number_spec) *)
 Definition scanner_lemmas : Prop :=
-  (forall s, str_to_number s = es_str_to_number s) /\
-  (forall s, parse_float_string s = es_parse_float_str s).
+  forall s, parse_float_string s = es_parse_float_str s.
 
 Theorem C04_single_pass_partial :
   scanner_lemmas ->
   forall n r d, vdepth r < n -> meq (apply_fuel n r d) (ref_eval r d).
-Proof. intros [H1 H2]. exact (model_refines_reference H1 H2). Qed.
+Proof. intros H2. exact (model_refines_reference str_to_number_spec H2). Qed.
 Print Assumptions C04_single_pass_partial.
 
 (** in particular for the budget [apply] uses *)
 Theorem C04_apply_is_reference_partial :
   scanner_lemmas -> forall r d, meq (apply r d) (ref_eval r d).
 Proof.
-  intros [H1 H2] r d. unfold apply. apply (model_refines_reference H1 H2). unfold default_fuel. auto with arith.
+  intros H2 r d. unfold apply. apply (model_refines_reference str_to_number_spec H2). unfold default_fuel. auto with arith.
 Qed.
 Print Assumptions C04_apply_is_reference_partial.
 
